@@ -488,6 +488,20 @@ export class SchemaPrintingContext {
     delete this.inProgressDefinitions[name];
   }
 
+  // a print that fails leaves the context as it found it: definitions completed on the way may refer to the
+  // definition that was abandoned (`A = { b: B, d: Date }`, `B = { a?: A }`: B is stored before A fails)
+  checkpoint(): Set<string> {
+    return new Set(Object.keys(this.collectedDefinitions));
+  }
+
+  rollback(checkpoint: Set<string>): void {
+    for (const name of Object.keys(this.collectedDefinitions)) {
+      if (!checkpoint.has(name)) {
+        delete this.collectedDefinitions[name];
+      }
+    }
+  }
+
   exportDefinitions():
     | Record<string, JSONSchema7Definition>
     | Record<string, Record<string, JSONSchema7Definition>> {
@@ -2603,7 +2617,13 @@ class ParserFromRuntype implements BeffParser<any> {
       mode: "contextual" as const,
       printingContext: schemaPrintingContext,
     };
-    return this._runtype.schema(ctx);
+    const checkpoint = schemaPrintingContext.checkpoint();
+    try {
+      return this._runtype.schema(ctx);
+    } catch (e) {
+      schemaPrintingContext.rollback(checkpoint);
+      throw e;
+    }
   }
   describe(): string {
     const ctx: DescribeContext = {
